@@ -119,7 +119,21 @@ fn main() {
             ("String".into(), ScalarTypeConfig::Single("string".into())), ("Int".into(), ScalarTypeConfig::Single("number".into())),
             ("Float".into(), ScalarTypeConfig::Single("number".into())), ("Boolean".into(), ScalarTypeConfig::Single("boolean".into()))];
         let others: Vec<String> = if special { vec!["In".into(), "E".into()] } else { s.types.iter().filter(|t| matches!(t.kind, Kind::Enum { .. } | Kind::Input { .. })).map(|t| t.name.clone()).collect() };
-        if rng.chance(1, 4) { let k = rng.below(scalars.len()); scalars[k].1 = scalar_cfg(&mut rng, &others); }
+        // configurations remap built-in scalars: ID: string; Int: {send: "number | bigint", receive: number}; String: a branded type; or a random one
+        let mut remapped: Vec<String> = vec![];
+        if special || rng.chance(1, 2) {
+            let picks: Vec<usize> = if special { vec![0, 2] } else { (0..rng.range(1, 2)).map(|_| rng.below(5)).collect() };
+            for k in picks {
+                scalars[k].1 = match (scalars[k].0.as_str(), rng.below(3)) {
+                    ("ID", 0 | 1) => ScalarTypeConfig::Single("string".into()),
+                    ("Int", 0 | 1) => ScalarTypeConfig::SendReceive(SendReceiveScalarTypeConfig { send: "number | bigint".into(), receive: "number".into() }),
+                    ("String", 0 | 1) => ScalarTypeConfig::Single("string & { __brand: 'S' }".into()),
+                    _ => scalar_cfg(&mut rng, &others),
+                };
+                if !remapped.contains(&scalars[k].0) { remapped.push(scalars[k].0.clone()); }
+                bump("builtin-scalar-remapped");
+            }
+        }
         let custom: Vec<String> = if special { vec!["Date".into(), "Stamp".into()] } else { s.types.iter().filter(|t| matches!(t.kind, Kind::Scalar)).map(|t| t.name.clone()).collect() };
         let mut sdl = base_sdl.clone();
         let mut directive_json: Vec<J> = vec![];
@@ -153,7 +167,7 @@ fn main() {
         if special {
             let mut nestings: Vec<Vec<String>> = vec![vec!["@".into(), "@!".into()]];
             for d in 0..wrapper_depth { let next: Vec<String> = nestings[d].iter().flat_map(|x| vec![format!("[{x}]"), format!("[{x}]!")]).collect(); nestings.push(next); }
-            for leaf in ["Int", "Date", "Stamp", "E", "In"] {
+            for leaf in ["Int", "ID", "Date", "Stamp", "E", "In"] {
                 for (k, n) in nestings.iter().flatten().enumerate() {
                     for rep in 0..2 { op_texts.push((format!("query W{leaf}{k}x{rep}($v: {}) {{ __typename }}\n", n.replace('@', leaf)), "exhaustive-wrappers")); }
                 }
@@ -180,9 +194,16 @@ fn main() {
         }
         // the schema declaration the implementation prints under each value of the option: C09 reads the
         // Variables types through the `__OperationInput` namespace of THIS text
+        // options as the CLI builds them: configuration TEXT -> parse_config -> SchemaTypePrinterOptions::from_config.
+        // The text lists the custom scalars typed by the option and the REMAPPED built-ins only; the
+        // reference (`scalars`) is the effective mapping: built-in defaults overridden by the configuration.
+        let configured: serde_json::Map<String, J> = scalars.iter()
+            .filter(|(k, _)| !BUILTIN_SCALARS.contains(&k.as_str()) || remapped.contains(k))
+            .map(|(k, c)| (k.clone(), cfg_json(c))).collect();
         let schema_text = |allow: bool| -> Option<String> {
-            let opts = SchemaTypePrinterOptions { scalar_types: scalars.iter().cloned().collect::<HashMap<_, _>>(),
-                schema_metadata_type: "__nitrogql_schema".into(), input_nullable_field_is_optional: allow, emit_schema_runtime: false };
+            let yaml = format!("schema: schema.graphql\ndocuments: ops/*.graphql\nextensions:\n  nitrogql:\n    generate:\n      type:\n        allowUndefinedAsOptionalInput: {allow}\n        scalarTypes: {}\n", serde_json::to_string(&configured).unwrap());
+            let config = parse_config(&yaml).expect("config");
+            let opts = SchemaTypePrinterOptions::from_config(&config);
             catch(std::panic::AssertUnwindSafe(|| { let mut w = Rec::new(); SchemaTypePrinter::new(opts, &mut w).print_document(&doc).ok().map(|_| w.text()) })).ok().flatten()
         };
         let (text_on, text_off) = (schema_text(true), schema_text(false));
@@ -228,7 +249,7 @@ fn main() {
         if runs_coq.is_empty() { bump("schema-without-variables"); continue; }
         let sopts = format!("(mkSOpts {} (s \"__nitrogql_schema\") true false)", coq_list(&scalars, |(k, c)| format!("({}, {})", coq_str(k), cfg_coq(c))));
         let dj = json!({"kind": "variables", "path": "direct", "schema": sdl, "scalarTypes": scalars.iter().map(|(k, c)| (k.clone(), cfg_json(c))).collect::<serde_json::Map<_, _>>(),
-                        "schemaRootNamespace": ns, "runs": runs_j, "schema_declaration_option_on": text_on, "schema_declaration_option_off": text_off});
+                        "schemaRootNamespace": ns, "configured_scalarTypes": configured, "runs": runs_j, "schema_declaration_option_on": text_on, "schema_declaration_option_off": text_off});
         if samples.len() < 2 && i % 41 == 0 { samples.push(dj.clone()); }
         let body = format!("{} {} {} {} {} [{}]", ast_coq::tsdoc(&doc), sopts, coq_str(&ns), coq_opt(&text_on, |x| coq_s(x)), coq_opt(&text_off, |x| coq_s(x)), runs_coq.join("; "));
         cases.push(format!("CVars false {body}"), dj.clone());
